@@ -204,3 +204,32 @@ func Virtual(n int) ([]byte, func()) {
 	}
 	return mem, func() { _ = syscall.Munmap(mem) }
 }
+
+// ROArena is an arena whose body is read-only while the library runs: Set copies an input in (ending at
+// the trailing guard page) and write-protects the pages again. A store into the input is then a
+// recoverable fault whose address lies in the body (InBody), not in a guard page.
+type ROArena struct {
+	a *Arena
+}
+
+func NewROArena(size int) *ROArena { return &ROArena{a: NewArena(size)} }
+
+func (r *ROArena) Cap() int { return r.a.Cap() }
+
+// Set places b (len >= 1) read-only at the end of the arena.
+func (r *ROArena) Set(b []byte) []byte {
+	if err := syscall.Mprotect(r.a.body, syscall.PROT_READ|syscall.PROT_WRITE); err != nil {
+		panic(err)
+	}
+	out := r.a.AtEnd(b)
+	if err := syscall.Mprotect(r.a.body, syscall.PROT_READ); err != nil {
+		panic(err)
+	}
+	return out
+}
+
+// InBody reports whether addr lies in the write-protected body.
+func (r *ROArena) InBody(addr uintptr) bool {
+	base := uintptr(unsafe.Pointer(&r.a.body[0]))
+	return addr >= base && addr < base+uintptr(len(r.a.body))
+}
